@@ -83,7 +83,13 @@ func (b *exampleBuilder) buildExampleForObjectNode(node *internalSchema.ObjectNo
 		}
 	}
 	buf.WriteRune('}')
-	return buf.Bytes(), nil
+	return copyBytes(buf.Bytes()), nil
+}
+
+// copyBytes detaches the result from the pooled buffer, which is reused as soon
+// as it is put back.
+func copyBytes(b []byte) []byte {
+	return append([]byte(nil), b...)
 }
 
 func (b *exampleBuilder) buildObjectKey(k internalSchema.ObjectNodeKey) ([]byte, error) {
@@ -130,7 +136,7 @@ func (b *exampleBuilder) buildExampleForArrayNode(node *internalSchema.ArrayNode
 		}
 	}
 	buf.WriteRune(']')
-	return buf.Bytes(), nil
+	return copyBytes(buf.Bytes()), nil
 }
 
 func (b *exampleBuilder) buildExampleForMixedValueNode(node *internalSchema.MixedValueNode) ([]byte, error) {
@@ -211,7 +217,7 @@ func buildExampleForObjectNode(
 		}
 	}
 	b.WriteRune('}')
-	return b.Bytes(), nil
+	return copyBytes(b.Bytes()), nil
 }
 
 func buildExampleForArrayNode(
@@ -239,7 +245,7 @@ func buildExampleForArrayNode(
 		}
 	}
 	b.WriteRune(']')
-	return b.Bytes(), nil
+	return copyBytes(b.Bytes()), nil
 }
 
 var exampleBufferPool = sync.NewBufferPool(512)
